@@ -1,11 +1,13 @@
-(* C33 -- the soft-cut library picks the lowest-indexed applicable rule:
-   FULL-STRENGTH statements (index terms in [dom]: any integer |z| < 2^53, floats,
-   unquoted atoms, compounds).  Holds for problog/engine_builtin.py with
-   fixes/C15-struct-cmp-number-fallthrough.patch applied (depends on
-   C15/ProofsFixed.v); refuted on the pinned source by Findings.v.
-   The check proves this file automatically as soon as C15's number defect is
-   gone from the generated model; it can then replace Props.v:
-       cp coq/theories/C33/PropsFixed.v coq/theories/C33/Props.v *)
+(* C33 -- the soft-cut library picks the lowest-indexed applicable rule.
+   Only statements, closed by `exact`.
+
+   Model: ModelCut.cut_m (hand model of library/cut.pl; the clauses it was
+   written from are pinned against the clauses regenerated from cut.pl on every
+   run, C33_library_pinned) on top of C15's GENERATED model of sort/2.
+   Index terms in [dom]: any integer |z| < 2^53, floats, unquoted atoms,
+   compounds.  Depends on C15/ProofsFixed.v (struct_cmp is the standard order
+   on [dom]); before fix 24d7f1d r(10,..) was preferred to r(2,..) (witness kept
+   in corpus/C33). *)
 From Coq Require Import ZArith NArith List Bool Permutation.
 From PL.C15 Require Import ModelStd ModelPrelude GenStructCmp ProofsGen ProofsFixed.
 From PL.C33 Require Import GenLibCut ModelCut ProofsCut.
